@@ -194,32 +194,40 @@ def check_value_root(chk, cf, o, lv, loc):
 def check_discovery(chk, cf, o, loc):
     cn, d = cf.cn, cf.d
     v = o.fields.get("value")
-    acc = [ev for ev in d.summary.events if ev.kind == "accum"]
-    # the accumulated variable is the result's value
-    ok_shape = v is not None and v[0] == "loopout" and v[3] in (C(0), C(0.0))
-    name = v[1] if ok_shape else None
-    accs = [ev for ev in acc if ev.data["name"] == name]
-    ok = ok_shape and len(accs) == 1 and accs[0].data["op"] == "+"
-    detail = f"value {cn.show(v)[:200]}"
+    from .shapes import summation
+    sm = summation(d.ip, cn, d.summary.events, v)
+    detail = f"value {cn.show(v)[:200]}" if v is not None else "no value"
+    if sm is None:
+        chk.undecided("C05.discovery", "SubnetScan: discovery value added exactly for connected, "
+                      "not yet discovered addresses, starting from 0", "the result's value is not "
+                      f"a running sum the analysis decodes: {detail}", loc)
+        return
+    init, parts = sm
+    ok = init in (C(0), C(0.0)) and len(parts) == 1
     if ok:
-        ev = accs[0]
-        inside = []
-        seen = False
-        for c in ev.pc:
-            if c[0] == "inloop":
-                seen = True
-                continue
-            if seen:
-                inside.append(c)
+        added_t, loops, inside, _ev = parts[0]
         cond = cf.strip(cn.conj(tuple(inside)))
         want = f_and([A(CONNECTED), f_not(A(f"copy(state)[{EACH}].discovered"))])
-        added = cn.show(ev.data["value"])
-        ok = f_equiv(cond, want) and added == f"state[{EACH}].discovery_value"
+        want0 = f_and([A(CONNECTED), f_not(A(f"state[{EACH}].discovered"))])
+        added = cn.show(added_t)
+        ok = (f_equiv(cond, want) or f_equiv(cond, want0)) \
+            and added in (f"state[{EACH}].discovery_value", f"copy(state)[{EACH}].discovery_value")
         detail = f"adds {added} under {f_show(cond)}"
-        marks = [e for e in cf.net_effects(o) if e["kind"] == "cell" and e["fam"] == "discovered"
-                 and e["ev"].pc == ev.pc]
+        # pay => mark: discovered := True is stored for the same address under the same condition
+        marks = []
+        for e in cf.net_effects(o):
+            if e["kind"] == "cell" and e["fam"] == "discovered" and e["addr"] == EACH:
+                ins, seen = [], False
+                for c in e["ev"].pc:
+                    if c[0] == "inloop":
+                        seen = True
+                    elif seen and c[0] != "fact":
+                        ins.append(c)
+                mc = cf.strip(cn.conj(tuple(ins)))
+                if f_equiv(mc, cond) or f_equiv(mc, want) or f_equiv(mc, want0):
+                    marks.append(e)
         chk.ob("C05.pay-mark", "SubnetScan: the path that adds a discovery value also stores "
-               "discovered := True for the same address", len(marks) == 1 and
-               marks[0]["addr"] == EACH, f"{len(marks)} matching store(s)", loc)
+               "discovered := True for the same address", len(marks) == 1,
+               f"{len(marks)} matching store(s)", loc)
     chk.ob("C05.discovery", "SubnetScan: discovery value added exactly for connected, not yet "
            "discovered addresses, starting from 0", ok, detail, loc)
